@@ -13,6 +13,7 @@ import (
 	"strings"
 
 	"github.com/mgtv-tech/redis-GunYu/config"
+	"github.com/mgtv-tech/redis-GunYu/pkg/redis/client"
 	"github.com/mgtv-tech/redis-GunYu/pkg/redis/client/common"
 )
 
@@ -290,6 +291,12 @@ func (s *verifLeaseStore) IterateNodes(func(string, interface{}, error), string,
 // refusal changes nothing and a refused renewal is ErrNotLeader; resigning
 // removes only A's own lease; a lost call changes nothing, a lost reply never
 // makes A believe it is leader.
+// verifNewElection: the election object as the tool builds it (redisCluster.NewElection)
+func verifNewElection(cli client.Redis, ttl int, id string) Election {
+	rc := &redisCluster{redisCli: cli, ttl: ttl, ctx: context.Background(), cancel: func() {}}
+	return rc.NewElection(context.Background(), "lease", id)
+}
+
 func VerifC15Step() {
 	idA := verifStr("idA", 2)
 	idO := verifStr("idOther", 2)
@@ -318,7 +325,7 @@ func VerifC15Step() {
 		st.loseRepl = true
 	}
 	preExists, preValue, preExpire := st.exists, st.value, st.expireAt
-	e := &redisElection{key: "lease", cli: st, ttl: ttl, id: idA}
+	e := verifNewElection(st, ttl, idA)
 	op := verifChoose("op", 3)
 	ctx := context.Background()
 	st.envStep = func() {
@@ -410,8 +417,8 @@ func VerifC15Expiry() {
 	verifAssume(verifAnd(st.now >= 0, st.now < 1<<40))
 	ttl := verifInt("ttl")
 	verifAssume(verifAnd(ttl >= 1, ttl <= 600))
-	a := &redisElection{key: "lease", cli: st, ttl: ttl, id: "A"}
-	b := &redisElection{key: "lease", cli: st, ttl: ttl, id: "B"}
+	a := verifNewElection(st, ttl, "A")
+	b := verifNewElection(st, ttl, "B")
 	role, err := a.Campaign(context.Background())
 	verifAssert(err == nil && role == RoleLeader, "C15.first-campaign")
 	dt := verifI64("dt")
@@ -430,6 +437,7 @@ type verifSlowStore struct {
 	slowCall int // the n-th Do (1-based) is answered late; 0 = none
 	calls    int
 	expire   func()
+	done     chan struct{} // closed when the late reply leaves the store
 }
 
 func (s *verifSlowStore) Do(cmd string, args ...interface{}) (interface{}, error) {
@@ -438,6 +446,7 @@ func (s *verifSlowStore) Do(cmd string, args ...interface{}) (interface{}, error
 	if s.calls == s.slowCall {
 		s.expire()
 		verifSettle()
+		close(s.done)
 	}
 	return rep, err
 }
@@ -458,9 +467,8 @@ func VerifC15LateReply() {
 		st.expireAt = verifI64("expireAt")
 		verifAssume(verifAnd(st.expireAt > st.now, st.expireAt <= st.now+int64(ttl)))
 	}
-	slow := &verifSlowStore{verifLeaseStore: st}
-	rc := &redisCluster{redisCli: slow, ttl: ttl, ctx: context.Background(), cancel: func() {}}
-	e := rc.NewElection(context.Background(), "lease", "A")
+	slow := &verifSlowStore{verifLeaseStore: st, done: make(chan struct{})}
+	e := verifNewElection(slow, ttl, "A")
 
 	call := func(op int, ctx context.Context) (bool, error) {
 		st.cmdInCall = 0
@@ -484,6 +492,11 @@ func VerifC15LateReply() {
 		verifAssert(st.live() && st.value == "A", "C15.told-leader-without-own-lease")
 	}
 	cancel1()
+	if slow.slowCall == 1 {
+		// the late reply arrives (whoever still waits for it gets it) before anything else happens
+		<-slow.done
+		verifSettle()
+	}
 	// time passes; another instance campaigns and gets the lease if it is free
 	dt := verifI64("dt")
 	verifAssume(verifAnd(dt >= 0, dt < 1<<20))
